@@ -48,8 +48,6 @@ namespace NQ.Hub
 @[simp] theorem delivered_setThread (s : State) (tid : Nat) (th : Thread) : (setThread s tid th).delivered = s.delivered := rfl
 @[simp] theorem everOpen_setThread (s : State) (tid : Nat) (th : Thread) : (setThread s tid th).everOpen = s.everOpen := rfl
 @[simp] theorem remRemoved_setThread (s : State) (tid : Nat) (th : Thread) : (setThread s tid th).remRemoved = s.remRemoved := rfl
-@[simp] theorem cbMode_setThread (s : State) (tid : Nat) (th : Thread) : (setThread s tid th).cbMode = s.cbMode := rfl
-@[simp] theorem unreg_setThread (s : State) (tid : Nat) (th : Thread) : (setThread s tid th).unreg = s.unreg := rfl
 @[simp] theorem goto_pc (th : Thread) (pc : Pc) : (goto th pc).pc = pc := rfl
 @[simp] theorem goto_rest (th : Thread) (pc : Pc) : (goto th pc).rest = th.rest := rfl
 @[simp] theorem goto_res (th : Thread) (pc : Pc) : (goto th pc).res = th.res := rfl
@@ -327,5 +325,270 @@ theorem baseInv_reachable (progs : List (List Op)) (s : State) (h : Reachable pr
   induction h with
   | init => exact baseInv_init progs
   | step s s' tid _ hs ih => exact baseInv_step s s' tid ih hs
+
+end NQ.Hub
+
+namespace NQ.Hub
+
+/-- the messages thread results report as received on key `k`, oldest first -/
+def gotSel (k : Key) : Res → Option Msg
+  | .got k' m => if k' = k then some m else none
+  | _ => none
+def gotOf (k : Key) (rs : List Res) : List Msg := rs.filterMap (gotSel k)
+
+theorem gotOf_snoc (k : Key) (rs : List Res) (r : Res) :
+    gotOf k (rs ++ [r]) = gotOf k rs ++ (match gotSel k r with | some m => [m] | none => []) := by
+  unfold gotOf; rw [List.filterMap_append]; congr 1
+  simp only [List.filterMap_cons, List.filterMap_nil]
+  cases gotSel k r <;> rfl
+
+def PlainThread (k : Key) (tid : Nat) (th : Thread) : Prop :=
+  (th.pc ≠ .cCbRecv k ∧ ∀ k0 m, th.pc = .sCall k0 m → rkey k0 ≠ k) ∧ NoCbProg tid k th.rest
+
+/-- Invariant for a channel `k` whose owner never registers a callback. -/
+structure PlainInv (k : Key) (s : State) : Prop where
+  chan : s.sent k = s.delivered k ++ s.msgs k
+  nocb : s.recvCbs k = false
+  thr : ∀ t, PlainThread k t (s.threads t)
+
+theorem plain_advance (k : Key) (tid : Nat) (th : Thread) (r : Res) (hr : PlainThread k tid th) :
+    PlainThread k tid (advance tid th r) := by
+  rcases advance_spec tid th r with ⟨h1, h2, _⟩ | ⟨op, ops, h0, h1, h2⟩
+  · unfold PlainThread; rw [h1, h2]; simp [NoCbProg]
+  · unfold PlainThread; rw [h1, h2]; have := hr.2; rw [h0] at this
+    exact ⟨entry_plain this, NoCbProg_tail this⟩
+
+theorem plainInv_set (k : Key) (s S : State) (tid : Nat) (th' : Thread)
+    (hthreads : S.threads = s.threads)
+    (hall : ∀ t, PlainThread k t (s.threads t))
+    (hth : PlainThread k tid th')
+    (chan : S.sent k = S.delivered k ++ S.msgs k) (nocb : S.recvCbs k = false) :
+    PlainInv k (setThread S tid th') := by
+  refine ⟨chan, nocb, ?_⟩
+  intro t; by_cases h : t = tid
+  · subst h; simpa using hth
+  · simpa [h, hthreads] using hall t
+
+theorem plainInv_step (k : Key) (s s' : State) (tid : Nat) (hinv : PlainInv k s)
+    (h : step s tid = some s') : PlainInv k s' := by
+  obtain ⟨hc, hn, hall⟩ := hinv
+  have hme := hall tid
+  step_cases h s tid hpc
+  all_goals
+    refine plainInv_set k s _ tid _ rfl hall ?_ ?_ ?_
+  all_goals first
+    | exact plain_advance k tid _ _ hme
+    | exact hc
+    | exact hn
+    | (unfold PlainThread at hme ⊢; rw [hpc] at hme; simp_all [goto]; done)
+    | (unfold PlainThread at hme; rw [hpc] at hme; simp_all [upd]; done)
+    | (unfold PlainThread at hme; rw [hpc] at hme; simp only [upd]; split <;> simp_all; done)
+    | (rename_i kk mm hx
+       refine ⟨⟨by simp [goto], ?_⟩, by simpa using hme.2⟩
+       intro k0 m hk heq
+       simp only [goto_pc, Pc.sCall.injEq] at hk
+       rw [← hk.1] at heq
+       rw [heq, hn] at hx; cases hx)
+
+theorem plainInv_init (k : Key) (progs : List (List Op))
+    (hk : ∀ t, NoCbProg t k (progs.getD t [])) : PlainInv k (init progs) := by
+  refine ⟨rfl, rfl, ?_⟩
+  intro t
+  show PlainThread k t (startThread t (progs.getD t []))
+  have := hk t
+  unfold startThread
+  split
+  · simp [PlainThread, NoCbProg]
+  · rename_i op ops heq
+    rw [heq] at this
+    exact ⟨entry_plain this, NoCbProg_tail this⟩
+
+/-- the receiving thread's results on a plain channel are exactly the delivered sequence -/
+theorem got_step (k : Key) (s s' : State) (tid : Nat) (own : ∀ t, OwnPc t (s.threads t).pc)
+    (plain : PlainInv k s) (hg : gotOf k (s.threads k.1).res = s.delivered k)
+    (h : step s tid = some s') : gotOf k (s'.threads k.1).res = s'.delivered k := by
+  have hown := own tid
+  have hme := (plain.thr tid).1
+  clear own plain
+  step_cases h s tid hpc
+  all_goals
+    simp only [threads_setThread, delivered_setThread]
+    rw [hpc] at hown hme
+    by_cases ht : k.1 = tid
+    · simp only [if_pos ht, goto_res, advance_res, gotOf_snoc, gotSel]
+      subst ht
+      first
+        | exact hg
+        | (simp only [List.append_nil]; exact hg)
+        | (have hne := hme.2 _ _ rfl
+           simp only [List.append_nil, upd, if_neg (Ne.symm hne)]; exact hg)
+        | (rename_i kk _ hd tl _
+           by_cases hkk : kk = k
+           · subst hkk; simp [upd, hg]
+           · simp [upd, hkk, Ne.symm hkk, hg])
+    · simp only [if_neg ht]
+      first
+        | exact hg
+        | (have hne := hme.2 _ _ rfl
+           simp only [upd, if_neg (Ne.symm hne)]; exact hg)
+        | (rename_i kk _ hd tl _
+           have hkk : k ≠ kk := by
+             intro e; subst e; simp [OwnPc, pcKey] at hown; exact ht hown
+           simp only [upd, if_neg hkk]; exact hg)
+
+end NQ.Hub
+
+namespace NQ.Hub
+
+/-- programs in which key `k` is only ever connected WITH callbacks and never disconnected -/
+def CbOnlyProg (t : Nat) (k : Key) (ops : List Op) : Prop :=
+  (∀ rn id, Op.connect rn id false ∈ ops → (t, rn, id) ≠ k) ∧
+  (∀ rn id, Op.disconnect rn id ∈ ops → (t, rn, id) ≠ k)
+
+/-- program counters that must not occur for such a key: a plain publish, any step of its disconnect,
+and the queue path of a send towards it -/
+def badPc (k : Key) : Pc → Prop
+  | .cOpen k' false => k' = k
+  | .dLock k' | .dLostGet k' | .dLostCall k' | .dOpenChk k' | .dOpenRm k' | .dRemChk k' | .dRemRm k'
+  | .dPopRecv k' | .dPopLost k' => k' = k
+  | .sLock k0 _ | .sAppend k0 _ => rkey k0 = k
+  | _ => False
+
+/-- program counters at which the callback of `k` must already be registered -/
+def needsReg (k : Key) : Pc → Prop
+  | .cCbLost k' | .cOpen k' true => k' = k
+  | .sCb k0 _ => rkey k0 = k
+  | _ => False
+
+def CbThread (k : Key) (t : Nat) (th : Thread) : Prop := ¬ badPc k th.pc ∧ CbOnlyProg t k th.rest
+
+structure CbInv (k : Key) (s : State) : Prop where
+  thr : ∀ t, CbThread k t (s.threads t)
+  reg : ∀ t, needsReg k (s.threads t).pc → s.recvCbs k = true
+  opn : s.open_ k = true → s.recvCbs k = true
+  emp : s.msgs k = []
+  seq : s.sent k = s.cbStore k ∧ s.delivered k = s.cbStore k
+
+theorem CbOnlyProg_tail {t : Nat} {k : Key} {op : Op} {ops : List Op} (h : CbOnlyProg t k (op :: ops)) :
+    CbOnlyProg t k ops :=
+  ⟨fun rn id hm => h.1 rn id (List.mem_cons_of_mem _ hm), fun rn id hm => h.2 rn id (List.mem_cons_of_mem _ hm)⟩
+
+theorem entry_cb {t : Nat} {k : Key} {op : Op} {ops : List Op} (h : CbOnlyProg t k (op :: ops)) :
+    ¬ badPc k (entry t op) ∧ ¬ needsReg k (entry t op) := by
+  rcases entry_cases t op with ⟨rn, id, rfl, e⟩ | ⟨rn, id, rfl, e⟩ | ⟨rn, id, m, rfl, e⟩ |
+    ⟨rn, id, b, rfl, e⟩ | ⟨rn, id, rfl, e⟩ <;> rw [e] <;> simp [badPc, needsReg]
+  · exact h.1 rn id List.mem_cons_self
+  · exact h.2 rn id List.mem_cons_self
+
+theorem cb_advance (k : Key) (tid : Nat) (th : Thread) (r : Res) (hr : CbThread k tid th) :
+    CbThread k tid (advance tid th r) ∧ ¬ needsReg k (advance tid th r).pc := by
+  rcases advance_spec tid th r with ⟨h1, h2, _⟩ | ⟨op, ops, h0, h1, h2⟩
+  · unfold CbThread; rw [h1, h2]; simp [badPc, needsReg, CbOnlyProg]
+  · unfold CbThread; rw [h1, h2]; have := hr.2; rw [h0] at this
+    exact ⟨⟨(entry_cb this).1, CbOnlyProg_tail this⟩, (entry_cb this).2⟩
+
+theorem cbInv_init (k : Key) (progs : List (List Op))
+    (hk : ∀ t, CbOnlyProg t k (progs.getD t [])) : CbInv k (init progs) := by
+  have hst : ∀ t, CbThread k t (startThread t (progs.getD t [])) ∧
+      ¬ needsReg k (startThread t (progs.getD t [])).pc := by
+    intro t
+    have := hk t
+    unfold startThread
+    split
+    · simp [CbThread, badPc, needsReg, CbOnlyProg]
+    · rename_i op ops heq
+      rw [heq] at this
+      exact ⟨⟨(entry_cb this).1, CbOnlyProg_tail this⟩, (entry_cb this).2⟩
+  refine ⟨fun t => (hst t).1, fun t h => absurd h (hst t).2, ?_, rfl, rfl, rfl⟩
+  intro h; simp [init] at h
+
+theorem cb_thr_step (k : Key) (s s' : State) (tid : Nat) (hinv : CbInv k s)
+    (h : step s tid = some s') : ∀ t, CbThread k t (s'.threads t) := by
+  obtain ⟨thr, reg, opn, emp, seq⟩ := hinv
+  have hme := thr tid
+  have hreg := reg tid
+  clear reg
+  step_cases h s tid hpc
+  all_goals
+    rw [hpc] at hreg
+    have hbad := hme.1
+    rw [hpc] at hbad
+    intro t
+    by_cases ht : t = tid
+    · subst ht
+      simp only [threads_setThread, if_true]
+      first
+        | exact (cb_advance k t _ _ hme).1
+        | (refine ⟨?_, by simpa using hme.2⟩
+           simp only [goto_pc]
+           simp_all [badPc, needsReg]; done)
+        | (rename_i hx
+           refine ⟨?_, by simpa using hme.2⟩
+           simp only [goto_pc, badPc]
+           intro e
+           exact hx (by rw [e]; exact hreg e))
+    · simp only [threads_setThread, if_neg ht]; exact thr t
+
+theorem cb_reg_step (k : Key) (s s' : State) (tid : Nat) (hinv : CbInv k s)
+    (h : step s tid = some s') : ∀ t, needsReg k (s'.threads t).pc → s'.recvCbs k = true := by
+  obtain ⟨thr, reg, opn, emp, seq⟩ := hinv
+  have hme := thr tid
+  have hreg := reg tid
+  step_cases h s tid hpc
+  all_goals
+    rw [hpc] at hreg
+    have hbad := hme.1
+    rw [hpc] at hbad
+    intro t hneed
+    have hrt := reg t
+    clear reg thr
+    simp only [recvCbs_setThread]
+    by_cases ht : t = tid
+    · subst ht
+      simp only [threads_setThread, if_true] at hneed
+      first
+        | exact absurd hneed (cb_advance k t _ _ hme).2
+        | (simp only [goto_pc] at hneed; simp_all [badPc, needsReg, upd]; done)
+    · simp only [threads_setThread, if_neg ht] at hneed
+      first
+        | exact hrt hneed
+        | (simp_all [badPc, needsReg, upd]; done)
+        | (simp only [upd]; split <;> simp_all [badPc])
+
+theorem cb_shared_step (k : Key) (s s' : State) (tid : Nat) (hinv : CbInv k s)
+    (h : step s tid = some s') :
+    (s'.open_ k = true → s'.recvCbs k = true) ∧ s'.msgs k = [] ∧
+    (s'.sent k = s'.cbStore k ∧ s'.delivered k = s'.cbStore k) := by
+  obtain ⟨thr, reg, opn, emp, seq⟩ := hinv
+  have hme := thr tid
+  have hreg := reg tid
+  clear reg thr
+  step_cases h s tid hpc
+  all_goals
+    rw [hpc] at hreg
+    have hbad := hme.1
+    rw [hpc] at hbad
+    simp only [recvCbs_setThread, open__setThread, msgs_setThread, sent_setThread, delivered_setThread,
+      cbStore_setThread]
+    first
+      | exact ⟨opn, emp, seq⟩
+      | (refine ⟨?_, ?_, ?_, ?_⟩ <;> first
+          | assumption
+          | exact seq.1
+          | exact seq.2
+          | (simp only [upd]; split <;> simp_all [badPc, needsReg] <;> done)
+          | (rename_i kk cb
+             intro ho; simp only [upd] at ho
+             split at ho
+             · rename_i e; subst e
+               cases cb
+               · exact absurd rfl hbad
+               · exact hreg rfl
+             · exact opn ho))
+
+theorem cbInv_step (k : Key) (s s' : State) (tid : Nat) (hinv : CbInv k s)
+    (h : step s tid = some s') : CbInv k s' :=
+  have hs := cb_shared_step k s s' tid hinv h
+  ⟨cb_thr_step k s s' tid hinv h, cb_reg_step k s s' tid hinv h, hs.1, hs.2.1, hs.2.2⟩
 
 end NQ.Hub
